@@ -272,6 +272,9 @@ let parse_scfg s =
 
 let run_case (toks : string list) : string option =
   match toks with
+  | ["c16loc"; named; bits] ->
+    let locs = List.init (String.length bits) (fun i -> bits.[i] = '1') in
+    Some (Printf.sprintf "src=%d" (int_of_nat (chosen_source (named = "1") locs)))
   | ["c16"; priv; pid; tz; file; cli] ->
     let a = parse_cli cli in
     let ntargets = List.fold_left (fun n (k, v) -> if k = "targets" then max 1 (int_of_string v) else n) 1 (entries cli) in
